@@ -33,6 +33,7 @@ impl Case {
       .enumerate()
       .map(|(i, s)| match s {
         SrcKind::Hot => format!("s{}=hot", i),
+        SrcKind::Subject => format!("s{}=Subject", i),
         SrcKind::Endless(v) => format!("s{}=endless({})", i, v),
         SrcKind::Cold { scripts, polite } => format!(
           "s{}={}cold[{}]",
@@ -62,6 +63,7 @@ pub fn rec_id(root: usize) -> u32 {
 // ------------------------------------------------------------ real sources
 
 struct RealSrc {
+  subject: subjects::Subject<'static, V>,
   observers: Arc<Mutex<Vec<Observer<'static, V>>>>,
   err_addrs: Arc<Mutex<Vec<(i64, usize)>>>,
   /// polite cold sources: is_subscribed() readings taken before each would-be emission, per instance
@@ -79,6 +81,7 @@ fn mk_err(k: i64, addrs: &Arc<Mutex<Vec<(i64, usize)>>>) -> RxError {
 impl RealSrc {
   fn new(toks: &Tokens) -> RealSrc {
     RealSrc {
+      subject: subjects::Subject::new(),
       observers: Arc::new(Mutex::new(vec![])),
       err_addrs: Arc::new(Mutex::new(vec![])),
       emitted: Arc::new(Mutex::new(vec![])),
@@ -86,6 +89,9 @@ impl RealSrc {
     }
   }
   fn observable(&self, kind: &SrcKind) -> Observable<'static, V> {
+    if *kind == SrcKind::Subject {
+      return self.subject.observable();
+    }
     let (obs, addrs, emitted, toks) =
       (self.observers.clone(), self.err_addrs.clone(), self.emitted.clone(), self.toks.clone());
     let kind = kind.clone();
@@ -97,7 +103,7 @@ impl RealSrc {
         o.len() - 1
       };
       match &kind {
-        SrcKind::Hot => {}
+        SrcKind::Hot | SrcKind::Subject => {}
         SrcKind::Endless(v) => {
           let mut n = 0;
           while s.is_subscribed() && n < ENDLESS_CAP {
@@ -126,6 +132,13 @@ impl RealSrc {
         }
       }
     })
+  }
+  fn push_subject(&self, ev: &Ev) {
+    match ev {
+      Ev::N(d) => self.subject.next(V { d: d.clone(), tok: Some(self.toks.take("item")) }),
+      Ev::E(k) => self.subject.error(mk_err(*k, &self.err_addrs)),
+      Ev::C => self.subject.complete(),
+    }
   }
   fn push(&self, ev: &Ev) {
     let os: Vec<Observer<'static, V>> = self.observers.lock().unwrap().clone();
@@ -237,6 +250,9 @@ pub struct Trace {
   pub src_alive: Vec<Vec<Vec<bool>>>,
   /// reference only: instance was cancelled lazily (amb loser) and has not attempted since
   pub src_lazy: Vec<Vec<Vec<bool>>>,
+  /// after each step: per source the number of observers a library Subject still holds (real),
+  /// resp. the number of live subscriptions (reference)
+  pub held: Vec<Vec<usize>>,
   pub n_sub: Vec<usize>,
   pub emitted: Vec<Vec<usize>>,
   pub tap_log: Vec<Ev>,
@@ -303,6 +319,7 @@ pub fn run_real(case: &Case, opts: &RunOpts) -> Trace {
   let n_roots = case.acts.iter().filter_map(|a| if let Act::Sub(r) = a { Some(*r + 1) } else { None }).max().unwrap_or(0);
   let root_live = Arc::new(Mutex::new(Vec::<Vec<Option<bool>>>::new()));
   let src_alive = Arc::new(Mutex::new(Vec::<Vec<Vec<bool>>>::new()));
+  let held = Arc::new(Mutex::new(Vec::<Vec<usize>>::new()));
   set_monitor_mode(true);
   let r = catch_unwind(AssertUnwindSafe(|| {
     let env = Env {
@@ -317,7 +334,13 @@ pub fn run_real(case: &Case, opts: &RunOpts) -> Trace {
       rec.step.store(step, Ordering::Relaxed);
       match act {
         Act::Sub(r) => subs[*r] = Some(rec.subscribe(&built, rec_id(*r))),
-        Act::Emit(i, ev) => srcs[*i].push(ev),
+        Act::Emit(i, ev) => {
+          if case.srcs[*i] == SrcKind::Subject {
+            srcs[*i].push_subject(ev)
+          } else {
+            srcs[*i].push(ev)
+          }
+        }
         Act::Unsub(r) => {
           if let Some(s) = &subs[*r] {
             s.unsubscribe()
@@ -326,6 +349,7 @@ pub fn run_real(case: &Case, opts: &RunOpts) -> Trace {
       }
       root_live.lock().unwrap().push(subs.iter().map(|s| s.as_ref().map(|s| s.is_subscribed())).collect());
       src_alive.lock().unwrap().push(srcs.iter().map(|s| s.alive()).collect());
+      held.lock().unwrap().push(srcs.iter().map(|s| s.subject.verif_observer_count()).collect());
     }
     drop(subs);
     drop(built);
@@ -341,6 +365,7 @@ pub fn run_real(case: &Case, opts: &RunOpts) -> Trace {
   tr.events = rec.log.lock().unwrap().clone();
   tr.root_live = root_live.lock().unwrap().clone();
   tr.src_alive = src_alive.lock().unwrap().clone();
+  tr.held = held.lock().unwrap().clone();
   tr.n_sub = srcs.iter().map(|s| s.observers.lock().unwrap().len()).collect();
   tr.emitted = srcs.iter().map(|s| s.emitted.lock().unwrap().clone()).collect();
   tr.tap_log = tap_log.lock().unwrap().clone();
@@ -388,6 +413,7 @@ pub fn run_ref(case: &Case) -> Trace {
     tr.root_live.push(roots.iter().map(|r| r.map(|id| !w.root_done(id))).collect());
     tr.src_alive.push(w.srcs.iter().map(|s| s.insts.iter().map(|i| i.alive).collect()).collect());
     tr.src_lazy.push(w.srcs.iter().map(|s| s.insts.iter().map(|i| i.lazy).collect()).collect());
+    tr.held.push(w.srcs.iter().map(|s| s.insts.iter().filter(|i| i.alive).count()).collect());
   }
   tr.n_sub = w.srcs.iter().map(|s| s.insts.len()).collect();
   tr.emitted = w.srcs.iter().map(|s| s.insts.iter().map(|i| i.emitted).collect()).collect();
